@@ -173,16 +173,19 @@ def run_cases(exe, cases, d, tag="asm", cpu_s=20):
         results[done] = {'id': cases[done]['id'], 'idx': done, 'status': 'crash', 'rc': p.returncode,
                          'stderr': p.stderr.decode(errors='replace')[-2000:]}
         start = done + 1
-    nt = sum(1 for r in results.values() if r['status'] == 'timeout')
+        if sum(1 for r in results.values() if r['status'] == 'crash') >= 25:
+            break                      # enough evidence; the remaining cases are reported as skipped
+    nt = sum(1 for r in results.values() if r['status'] in ('timeout', 'crash'))
     return [results.get(i, {'id': cases[i]['id'], 'idx': i, 'status': 'skipped' if nt >= 4 else 'missing'}) for i in range(len(cases))]
 
 
 def tlc_record(case, res, with_listing=True):
     """join a generated case (with its source directive list) and the harness result"""
-    rec = {'id': case['id'], 'prog': strip(case['prog']), 'hdr': res['hdr'], 'img': res['img'], 'haslst': False, 'lst': []}
+    rec = {'id': case['id'], 'prog': strip(case['prog']), 'hdr': res['hdr'], 'img': res['img'], 'haslst': False, 'lst': [], 'lprog': []}
     note = None
     if with_listing and 'listing' in res:
         lprog, lines, total = parse_listing(res['listing'])
+        rec['lprog'] = strip(lprog)
         if same_shape(lprog, case['prog']):
             rec['haslst'] = True; rec['lst'] = lines
         else:
@@ -393,7 +396,7 @@ def xcmp_listing_records(d, tdir, sources):
         hdr = struct.unpack('<I', raw[:4])[0]
         img = list(raw[4:4 + 4 * hdr])
         note = None
-        recs.append(('xcmp:' + name, {'id': 'xcmp:' + name, 'prog': strip(prog), 'hdr': hdr, 'img': img, 'haslst': True, 'lst': lines}, note))
+        recs.append(('xcmp:' + name, {'id': 'xcmp:' + name, 'prog': strip(prog), 'lprog': strip(prog), 'hdr': hdr, 'img': img, 'haslst': True, 'lst': lines}, note))
     return recs
 
 
@@ -406,6 +409,11 @@ def layout_pipeline(tier, d, rng, exe):
         for c in cc:
             c['notlc'] = rng.random() > 0.33
     cases = sweep_cases(thorough) + cc + random_cases(rng, 2500 if not thorough else 60000)
+    vals = value_list(rng, 300 if not thorough else 20000)
+    for m in ('LDAC', 'LDBC', 'LDAM', 'BR', 'LDAP', 'STAI'):
+        for off in range(0, len(vals), 700):
+            pr = [dict(imm(m, v), form=bool((off // 700) % 2)) for v in vals[off:off + 700]] + [imm('LDAC', 0)]
+            cases.append({'id': 'imm:%s:%d' % (m, off), 'prog': pr, 'src': src_of(pr)})
     import corpus
     tdir = corpus.tools()
     cases += corpus_cases(d, tdir)
